@@ -5,8 +5,10 @@
     are arbitrary unless a hypothesis says otherwise ([wf] is the shape invariant
     of every state reachable from [fresh], theorem [C02_wf_reachable]).
     The buffer-recycling level (Reset / DoNotUse_ResetNoInit re-slice to [:0],
-    CommandInit re-slices and zeroes) is [C02_slices_refine] at the end. *)
-From CSS Require Import Lib.Base Model.TPM Proofs.TPM Model.TPMSlices Proofs.TPMSlices.
+    CommandInit re-slices and zeroes) is [C02_slices_refine]; the hasher-pool
+    level (several TPM objects, each with its own history, driven at the same
+    time and sharing [hasherPools]) is [C02_pool_*] at the end. *)
+From CSS Require Import Lib.Base Model.TPM Proofs.TPM Model.TPMSlices Proofs.TPMSlices Model.TPMPool Proofs.TPMPool.
 
 (** startup succeeds iff the TPM is not started ... *)
 Theorem C02_startup_outcome : forall H st l,
@@ -134,6 +136,76 @@ Theorem C02_slices_run : forall H grow,
 Proof. exact srun_refines. Qed.
 Print Assumptions C02_slices_run.
 
+(** * Hasher pooling: TPM objects that share the pool (Model/TPMPool.v)
+
+    An extend is cut into six micro-steps (acquire, write old, write digest, sum,
+    and the two statements of releaseHasher); a schedule is ANY interleaving of
+    the micro-steps of any number of objects, together with what the pool
+    hands out each time (a pooled hasher of the right algorithm or a new one).
+    [Inv]: the pool holds a hasher at most once and only RESET ones, a hasher in
+    use holds exactly what its one owner wrote into it and is not in the pool. *)
+
+(** the invariant holds when nothing is in flight and the pooled hashers are
+    reset, and the code as it is (Reset, then Put) keeps it under every schedule;
+    in particular every hasher in the pool is always in the reset state *)
+Theorem C02_pool_invariant : forall H acts hs sched w',
+  Forall (fun a => a_ph a = Idle) acts -> pool_reset hs = true ->
+  mrun H true (init_world acts hs) sched = Some w' ->
+  Inv w' /\ forall hid, In hid (w_pool w') -> h_buf (w_heap w' hid) = [].
+Proof.
+  intros H acts hs sched w' Ha Hh Hr.
+  destruct (pool_run H _ _ _ (inv_init acts hs Ha Hh) Hr) as [HI _].
+  split; [exact HI|]. intros hid Hin. apply (inv_pool _ HI hid Hin).
+Qed.
+Print Assumptions C02_pool_invariant.
+
+(** independence: under every schedule, whenever object [j] is between two
+    commands it has completed a prefix [done] of its own history, and its state
+    (PCR banks, logs) and the results it returned are exactly those of the value
+    model run on [done] alone -- whatever the other objects did in between *)
+Theorem C02_pool_independent : forall H w sched w' j,
+  Inv w -> mrun H true w sched = Some w' ->
+  a_ph (w_act w j) = Idle -> a_ph (w_act w' j) = Idle ->
+  exists done,
+    a_todo (w_act w j) = done ++ a_todo (w_act w' j) /\
+    a_obj (w_act w' j) = run H (a_obj (w_act w j)) done /\
+    a_res (w_act w' j) = a_res (w_act w j) ++ results H (a_obj (w_act w j)) done.
+Proof. exact pool_independent. Qed.
+Print Assumptions C02_pool_independent.
+
+(** ... so an object that has run its whole history is where it would be alone *)
+Theorem C02_pool_independent_done : forall H w sched w' j,
+  Inv w -> mrun H true w sched = Some w' ->
+  a_ph (w_act w j) = Idle -> a_ph (w_act w' j) = Idle -> a_todo (w_act w' j) = [] ->
+  a_obj (w_act w' j) = run H (a_obj (w_act w j)) (a_todo (w_act w j)) /\
+  a_res (w_act w' j) = a_res (w_act w j) ++ results H (a_obj (w_act w j)) (a_todo (w_act w j)).
+Proof. exact pool_independent_done. Qed.
+Print Assumptions C02_pool_independent_done.
+
+(** what the correspondence check replays ([replay], Model/TPMPool.v) is such a schedule *)
+Theorem C02_pool_trace_is_schedule : forall H w tr w',
+  replay H w tr = Some w' ->
+  mrun H true w (map (fun e => (ev_actor e, ev_pick e)) tr) = Some w'.
+Proof. exact replay_mrun. Qed.
+Print Assumptions C02_pool_trace_is_schedule.
+
+(** The order of the two statements of releaseHasher is what carries the
+    invariant.  This is NOT a statement about the code as it is: with Put before
+    Reset ([reset_first = false]) there is a schedule of two objects, each
+    running [startup; extend], after which the second object holds H(digest)
+    instead of H(old || digest) although both extends returned no error; with
+    the code as it is the pool refuses that schedule at the early Get. *)
+Theorem C02_pool_reset_before_put_needed :
+  (exists w',
+    mrun Hlen false (init_world two_objects []) late_reset_schedule = Some w' /\
+    a_ph (w_act w' 1%nat) = Idle /\ a_todo (w_act w' 1%nat) = [] /\
+    a_res (w_act w' 1%nat) = [Ok tt; Ok tt] /\
+    get (pcrs (a_obj (w_act w' 1%nat))) 0 4 = Ok (repeat 1 20) /\
+    get (pcrs (run Hlen fresh [Startup 0; Extend 0 4 [2]])) 0 4 = Ok (repeat 21 20)) /\
+  mrun Hlen true (init_world two_objects []) (firstn 8 late_reset_schedule) = None.
+Proof. split; [exact put_first_breaks|exact reset_first_no_early_get]. Qed.
+Print Assumptions C02_pool_reset_before_put_needed.
+
 (** * The hypotheses are satisfiable, and the statements are not vacuous *)
 
 Definition H0 : Z -> list Z -> list Z := fun a x => repeat (Z.of_nat (length x)) (hsize a).
@@ -170,4 +242,37 @@ Example slices_stale_invisible :
   bmem (s_cmdlog s) = [Startup 7; Extend 0 4 [1; 2]].
 Proof.
   cbv zeta. split; [apply swf_srun; [exact H0_length|exact swf_snew]|vm_compute; auto].
+Qed.
+
+(** three objects sharing one hasher pool under a fine-grained schedule: the
+    hypotheses of [C02_pool_independent] hold, the schedule is accepted, hashers
+    are handed from object to object, and every object is where it would be alone *)
+Definition pool_acts0 : list actor :=
+  [idle_actor fresh [Startup 3; Extend 0 4 [1; 2]; Extend 0 11 [5]];
+   idle_actor fresh [Startup 7; Extend 0 4 [9]; Extend 2 4 [1]];
+   idle_actor fresh [Extend 0 4 []; Startup 1]].
+
+Definition pool_sched0 : list (nat * pick) :=
+  [(0, PNone); (1, PNone); (2, PPooled 0); (0, PFresh); (0, PNone); (2, PNone); (1, PFresh);
+   (2, PNone); (0, PNone); (1, PNone); (2, PNone); (0, PNone); (1, PNone); (0, PNone);
+   (1, PNone); (0, PNone); (1, PNone); (1, PNone); (1, PPooled 0); (0, PFresh); (1, PNone);
+   (0, PNone); (1, PNone); (0, PNone); (0, PNone); (0, PNone); (0, PNone)]%nat.
+
+Example pool_example :
+  Inv (init_world pool_acts0 [mkHs 4 []]) /\
+  exists w',
+    mrun H0 true (init_world pool_acts0 [mkHs 4 []]) pool_sched0 = Some w' /\
+    (forall j, (j < 3)%nat ->
+       a_ph (w_act w' j) = Idle /\ a_todo (w_act w' j) = [] /\
+       a_obj (w_act w' j) = run H0 fresh (a_todo (w_act (init_world pool_acts0 [mkHs 4 []]) j))) /\
+    get (pcrs (a_obj (w_act w' 0%nat))) 0 4 = Ok (repeat 22 20) /\
+    w_pool w' = [3; 0; 2; 1]%nat.
+Proof.
+  split; [apply inv_init; [repeat constructor|reflexivity]|].
+  destruct (mrun H0 true (init_world pool_acts0 [mkHs 4 []]) pool_sched0) as [w'|] eqn:E;
+    [|vm_compute in E; discriminate].
+  exists w'. split; [reflexivity|].
+  vm_compute in E. inversion E; subst w'; clear E.
+  split; [|split; vm_compute; reflexivity].
+  intros j Hj. destruct j as [|[|[|j]]]; [| | |lia]; vm_compute; auto.
 Qed.
